@@ -22,7 +22,7 @@ theorem findBlock_rules_self {sT : Schema} {specT : BlockSpec} (d : Addr)
 
 /-- a field kind without qualifier whose only lines are its rules -/
 def plainFacts {f : CField} (hs : isScalarKind f = true) (hq : fieldQuals f = [])
-    (rules : J5V.Compile.Rules) (hb : ∀ pfx ek, fieldBody f pfx ek = rulesBcl pfx rules)
+    (rules : J5V.Compile.Rules) (hb : ∀ pfx, fieldBody f pfx false = rulesBcl pfx rules)
     {sR : Schema} {specR : BlockSpec} {ri : Nat} (hR : RulesSchemaOK sR specR)
     (hpiR : propInfo j5Env (kindSchema f) wRules = some (ri, none, .container sR))
     (hspecR : ∀ c, specOf j5Env ⟨c, .msg sR⟩ = .ok specR)
@@ -61,7 +61,7 @@ def plainFacts {f : CField} (hs : isScalarKind f = true) (hq : fieldQuals f = []
     refine ⟨typeScope outer (tcfOf f d) root, kindSpec f, [], rfl, trivial, ?_⟩
     rw [hq]; exact walkQualifiers_nil _ _ _ _
   runB := by
-    intro sc pfx ek a b C hr _
+    intro sc pfx a b C hr _
     rw [hb]
     have hlt := propInfo_lt hpiR
     exact hr.rules (List.mem_singleton.mpr rfl) hR
@@ -73,7 +73,7 @@ def plainFacts {f : CField} (hs : isScalarKind f = true) (hq : fieldQuals f = []
 def stringFacts (rules : J5V.Compile.Rules) (l : Bool) (h : rulesOk j5Env b!"j5.schema.v1.StringField" rules = true) :
     FieldFacts (.string rules l) :=
   have hu := rulesOk_unpack h rulesSchema_String schemaOf_StringRules
-  plainFacts (f := .string rules l) rfl rfl rules (fun _ _ => rfl) rulesOK_String pi_String_rules specOf_StringRules
+  plainFacts (f := .string rules l) rfl rfl rules (fun _ => rfl) rulesOK_String pi_String_rules specOf_StringRules
     (show aliasLookup wRules specStringField.aliases = none by decide +kernel) hu.1 hu.2 (by
       simp only [fieldMsg, fieldOneof, typeSchema]
       rw [rulesVals_eq rulesSchema_String schemaOf_StringRules, mkMsg_of schemaOf_Field, mkMsg_of schemaOf_StringField]
@@ -82,7 +82,7 @@ def stringFacts (rules : J5V.Compile.Rules) (l : Bool) (h : rulesOk j5Env b!"j5.
 def boolFacts (rules : J5V.Compile.Rules) (l : Bool) (h : rulesOk j5Env b!"j5.schema.v1.BoolField" rules = true) :
     FieldFacts (.bool rules l) :=
   have hu := rulesOk_unpack h rulesSchema_Bool schemaOf_BoolRules
-  plainFacts (f := .bool rules l) rfl rfl rules (fun _ _ => rfl) rulesOK_Bool pi_Bool_rules specOf_BoolRules
+  plainFacts (f := .bool rules l) rfl rfl rules (fun _ => rfl) rulesOK_Bool pi_Bool_rules specOf_BoolRules
     (show aliasLookup wRules specBoolField.aliases = none by decide +kernel) hu.1 hu.2 (by
       simp only [fieldMsg, fieldOneof, typeSchema]
       rw [rulesVals_eq rulesSchema_Bool schemaOf_BoolRules, mkMsg_of schemaOf_Field, mkMsg_of schemaOf_BoolField]
@@ -91,7 +91,7 @@ def boolFacts (rules : J5V.Compile.Rules) (l : Bool) (h : rulesOk j5Env b!"j5.sc
 def bytesFacts (rules : J5V.Compile.Rules) (h : rulesOk j5Env b!"j5.schema.v1.BytesField" rules = true) :
     FieldFacts (.bytes rules) :=
   have hu := rulesOk_unpack h rulesSchema_Bytes schemaOf_BytesRules
-  plainFacts (f := .bytes rules) rfl rfl rules (fun _ _ => rfl) rulesOK_Bytes pi_Bytes_rules specOf_BytesRules
+  plainFacts (f := .bytes rules) rfl rfl rules (fun _ => rfl) rulesOK_Bytes pi_Bytes_rules specOf_BytesRules
     (show aliasLookup wRules specBytesField.aliases = none by decide +kernel) hu.1 hu.2 (by
       simp only [fieldMsg, fieldOneof, typeSchema]
       rw [rulesVals_eq rulesSchema_Bytes schemaOf_BytesRules, mkMsg_of schemaOf_Field, mkMsg_of schemaOf_BytesField]
@@ -100,7 +100,7 @@ def bytesFacts (rules : J5V.Compile.Rules) (h : rulesOk j5Env b!"j5.schema.v1.By
 def dateFacts (rules : J5V.Compile.Rules) (l : Bool) (h : rulesOk j5Env b!"j5.schema.v1.DateField" rules = true) :
     FieldFacts (.date rules l) :=
   have hu := rulesOk_unpack h rulesSchema_Date schemaOf_DateRules
-  plainFacts (f := .date rules l) rfl rfl rules (fun _ _ => rfl) rulesOK_Date pi_Date_rules specOf_DateRules
+  plainFacts (f := .date rules l) rfl rfl rules (fun _ => rfl) rulesOK_Date pi_Date_rules specOf_DateRules
     (show aliasLookup wRules specDateField.aliases = none by decide +kernel) hu.1 hu.2 (by
       simp only [fieldMsg, fieldOneof, typeSchema]
       rw [rulesVals_eq rulesSchema_Date schemaOf_DateRules, mkMsg_of schemaOf_Field, mkMsg_of schemaOf_DateField]
@@ -109,7 +109,7 @@ def dateFacts (rules : J5V.Compile.Rules) (l : Bool) (h : rulesOk j5Env b!"j5.sc
 def decimalFacts (rules : J5V.Compile.Rules) (l : Bool) (h : rulesOk j5Env b!"j5.schema.v1.DecimalField" rules = true) :
     FieldFacts (.decimal rules l) :=
   have hu := rulesOk_unpack h rulesSchema_Decimal schemaOf_DecimalRules
-  plainFacts (f := .decimal rules l) rfl rfl rules (fun _ _ => rfl) rulesOK_Decimal pi_Decimal_rules specOf_DecimalRules
+  plainFacts (f := .decimal rules l) rfl rfl rules (fun _ => rfl) rulesOK_Decimal pi_Decimal_rules specOf_DecimalRules
     (show aliasLookup wRules specDecimalField.aliases = none by decide +kernel) hu.1 hu.2 (by
       simp only [fieldMsg, fieldOneof, typeSchema]
       rw [rulesVals_eq rulesSchema_Decimal schemaOf_DecimalRules, mkMsg_of schemaOf_Field, mkMsg_of schemaOf_DecimalField]
@@ -118,7 +118,7 @@ def decimalFacts (rules : J5V.Compile.Rules) (l : Bool) (h : rulesOk j5Env b!"j5
 def timestampFacts (rules : J5V.Compile.Rules) (h : rulesOk j5Env b!"j5.schema.v1.TimestampField" rules = true) :
     FieldFacts (.timestamp rules) :=
   have hu := rulesOk_unpack h rulesSchema_Timestamp schemaOf_TimestampRules
-  plainFacts (f := .timestamp rules) rfl rfl rules (fun _ _ => rfl) rulesOK_Timestamp pi_Timestamp_rules specOf_TimestampRules
+  plainFacts (f := .timestamp rules) rfl rfl rules (fun _ => rfl) rulesOK_Timestamp pi_Timestamp_rules specOf_TimestampRules
     (show aliasLookup wRules specTimestampField.aliases = none by decide +kernel) hu.1 hu.2 (by
       simp only [fieldMsg, fieldOneof, typeSchema]
       rw [rulesVals_eq rulesSchema_Timestamp schemaOf_TimestampRules, mkMsg_of schemaOf_Field, mkMsg_of schemaOf_TimestampField]
@@ -147,7 +147,7 @@ def anyFacts : FieldFacts .any where
     intro outer root d _
     exact ⟨typeScope outer (tcfOf .any d) root, kindSpec .any, [], rfl, trivial, walkQualifiers_nil _ _ _ _⟩
   runB := by
-    intro sc pfx ek a b C _ _
+    intro sc pfx a b C _ _
     exact doBody_nil _ _ _
 
 /-! ## `integer:FMT`, `float:FMT` -/
@@ -197,7 +197,7 @@ def integerFacts (fmt : J5V.Compile.IntFmt) (rules : J5V.Compile.Rules) (l : Boo
       pi_IntegerField_format rfl rfl (.inl rfl) (asArray_tag _) (intFmt_scalar fmt)).conv ?_
     rw [storeNode_intFmt]; rfl
   runB := by
-    intro sc pfx ek a b C hr _
+    intro sc pfx a b C hr _
     have hu := rulesOk_unpack h rulesSchema_Integer schemaOf_IntegerRules
     exact hr.rules (List.mem_singleton.mpr rfl) rulesOK_Integer
       (findBlock_rules_self (sT := sIntegerField) (specT := specIntegerField) _
@@ -250,7 +250,7 @@ def floatFacts (fmt : J5V.Compile.FloatFmt) (rules : J5V.Compile.Rules) (l : Boo
       pi_FloatField_format rfl rfl (.inl rfl) (asArray_tag _) (floatFmt_scalar fmt)).conv ?_
     rw [storeNode_floatFmt]; rfl
   runB := by
-    intro sc pfx ek a b C hr _
+    intro sc pfx a b C hr _
     have hu := rulesOk_unpack h rulesSchema_Float schemaOf_FloatRules
     exact hr.rules (List.mem_singleton.mpr rfl) rulesOK_Float
       (findBlock_rules_self (sT := sFloatField) (specT := specFloatField) _
